@@ -172,6 +172,9 @@ func applyTarget(target []byte, st *state.State, ca cache.Memory, ctx context.Co
 		location, idx := st.Where()
 		return location, idx, nil
 	default:
+		if string(target) == sym {
+			return sym, idx, fmt.Errorf("already at node: %s", sym)
+		}
 		sym = string(target)
 		err := st.Down(sym)
 		if err != nil {
